@@ -1049,3 +1049,147 @@ func EveryIterationPasses(l *Loop, pred func(ssa.Instruction) bool) (always bool
 	}
 	return
 }
+
+// FieldName returns the name of the struct field a FieldAddr selects.
+func FieldName(fa *ssa.FieldAddr) string {
+	t := fa.X.Type()
+	if pt, ok := t.Underlying().(*types.Pointer); ok {
+		t = pt.Elem()
+	}
+	if st, ok := t.Underlying().(*types.Struct); ok && fa.Field < st.NumFields() {
+		return st.Field(fa.Field).Name()
+	}
+	return ""
+}
+
+// CountedLoop decides whether the natural loop l is a counted loop: its header branches on `i < bound` (or <=) where i
+// is a header phi that starts anywhere and is incremented by a positive constant on every back edge, and bound is
+// defined outside the loop; the false branch leaves the loop. Such a loop runs a bounded number of iterations.
+func CountedLoop(l *Loop) (bool, string) {
+	h := l.Header
+	if len(h.Instrs) == 0 {
+		return false, "empty header"
+	}
+	ifi, ok := h.Instrs[len(h.Instrs)-1].(*ssa.If)
+	if !ok {
+		return false, "the loop header does not test a condition (for { … } without a bound)"
+	}
+	cond, neg := normCond(ifi.Cond)
+	bo, ok := cond.(*ssa.BinOp)
+	if !ok || (bo.Op != token.LSS && bo.Op != token.LEQ) || neg {
+		return false, "the loop condition is not `counter < bound`"
+	}
+	phi, ok := bo.X.(*ssa.Phi)
+	if !ok || phi.Block() != h {
+		return false, "the left operand of the loop condition is not the loop counter"
+	}
+	if in, isInstr := bo.Y.(ssa.Instruction); isInstr && l.Blocks[in.Block()] {
+		return false, "the bound is recomputed inside the loop"
+	}
+	if !l.Blocks[h.Succs[0]] || l.Blocks[h.Succs[1]] {
+		return false, "the false branch of the loop condition stays in the loop"
+	}
+	back := 0
+	for i, e := range phi.Edges {
+		if !l.Blocks[h.Preds[i]] {
+			continue
+		}
+		back++
+		inc, ok := e.(*ssa.BinOp)
+		if !ok || inc.Op != token.ADD || inc.X != ssa.Value(phi) {
+			return false, "a back edge does not increment the counter"
+		}
+		if k, ok := ConstInt(inc.Y); !ok || k <= 0 {
+			return false, "a back edge does not increment the counter by a positive constant"
+		}
+	}
+	if back == 0 {
+		return false, "no back edge found"
+	}
+	return true, fmt.Sprintf("counter %s incremented on all %d back edge(s), bound defined outside the loop", phi.Comment, back)
+}
+
+// DiscardedOkSite is a comma-ok type assertion whose ok result is not used although the asserted value (a pointer or an
+// interface, nil when the assertion fails) is dereferenced without a nil test.
+type DiscardedOkSite struct {
+	Assert *ssa.TypeAssert
+	Use    ssa.Instruction
+}
+
+// DiscardedOks lists such sites in fn.
+func DiscardedOks(fn *ssa.Function) []DiscardedOkSite {
+	var out []DiscardedOkSite
+	Instrs(fn, func(in ssa.Instruction) {
+		ta, ok := in.(*ssa.TypeAssert)
+		if !ok || !ta.CommaOk || ta.Referrers() == nil {
+			return
+		}
+		switch ta.AssertedType.Underlying().(type) {
+		case *types.Pointer, *types.Interface:
+		default:
+			return
+		}
+		var val *ssa.Extract
+		okUsed := false
+		for _, r := range *ta.Referrers() {
+			ex, isEx := r.(*ssa.Extract)
+			if !isEx {
+				continue
+			}
+			if ex.Index == 0 {
+				val = ex
+			} else if ex.Referrers() != nil {
+				for _, rr := range *ex.Referrers() {
+					if _, dbg := rr.(*ssa.DebugRef); !dbg {
+						okUsed = true
+					}
+				}
+			}
+		}
+		if okUsed || val == nil || val.Referrers() == nil {
+			return
+		}
+		// nil tests on the value
+		var nilAtoms []ssa.Value
+		for _, a := range CondAtoms(fn) {
+			if b, ok := a.(*ssa.BinOp); ok && (b.Op == token.EQL || b.Op == token.NEQ) {
+				if (b.X == ssa.Value(val) && isNilConst(b.Y)) || (b.Y == ssa.Value(val) && isNilConst(b.X)) {
+					nilAtoms = append(nilAtoms, a)
+				}
+			}
+		}
+		for _, r := range *val.Referrers() {
+			deref := false
+			switch u := r.(type) {
+			case *ssa.FieldAddr:
+				deref = u.X == ssa.Value(val)
+			case *ssa.UnOp:
+				deref = u.Op == token.MUL && u.X == ssa.Value(val)
+			case *ssa.Call:
+				deref = u.Call.IsInvoke() && u.Call.Value == ssa.Value(val)
+			case *ssa.IndexAddr:
+				deref = u.X == ssa.Value(val)
+			}
+			if !deref {
+				continue
+			}
+			guarded := false
+			for _, a := range nilAtoms {
+				b := a.(*ssa.BinOp)
+				// under "value is nil" the use is not reached
+				if !ForwardReach(fn.Blocks[0], map[ssa.Value]bool{a: b.Op == token.EQL}, nil)[r.Block()] {
+					guarded = true
+				}
+			}
+			if !guarded {
+				out = append(out, DiscardedOkSite{ta, r})
+			}
+		}
+	})
+	return out
+}
+
+func isNilConst(v ssa.Value) bool {
+	c, ok := v.(*ssa.Const)
+	return ok && c.Value == nil
+}
